@@ -74,6 +74,19 @@ Definition declared_b (t : task) (wb wa : world) : bool :=
       end
   end.
 
+(* scope of the theorems about copy-from-src / template: source and destination are not
+   the same file (otherwise "the content of src" is itself changed by the task) *)
+Definition no_alias (t : task) (w : world) : bool :=
+  match t with
+  | TCopy p =>
+      match cp_input p with
+      | ISrc src => negb (path_eqb (res w src) (res w (cp_dest p)))
+      | IContent _ => true
+      end
+  | TTemplate p _ => negb (path_eqb (res w (tp_src p)) (res w (tp_dest p)))
+  | TFile _ => true
+  end.
+
 (* ---- recorded finding classes (call-site granularity) ---- *)
 (* K8: copy/template whose desired content is empty onto a destination that does not
    exist: the file is created but the task reports ok *)
@@ -85,7 +98,7 @@ Definition known_empty_create (t : task) (w : world) : bool :=
       | None =>
           match cp_input p with
           | IContent c => String.eqb c ""
-          | ISrc sp => match read_src w sp with Some c => String.eqb c "" | None => false end
+          | ISrc sp => match read_src w sp with Some c => String.eqb c "" | None => true end
           end
       end
   | TTemplate p (Some c) =>
